@@ -463,6 +463,19 @@ def r06_6(run):
                     k += 1
                     run.ob('R06.6', u, n, 'host and port parameters are not rewritten', False, slot='param-rewritten:%s' % t,
                            message='_create_ip_address rewrites its parameter %s' % t)
+    # every host string is put to the literal parser: no test on the host decides whether it is asked at all (a "looks like a
+    # name" shortcut mis-files literals - an IPv6 literal ends in a hex letter as often as not)
+    for c in calls_in(u):
+        if (origin(mod, c.func) or '').endswith('ipaddress.ip_address'):
+            for cn in g.nodes_containing(c):
+                gd = g.guarded_by(cn, lambda t: hp is not None and mentions(t, hp))
+                # (a test whose other leg only refuses the host - raises - does not decide *how* a host is classified)
+                normal = set(g.normal_exits())
+                gd = [(t, lab) for t, lab in gd if normal & g.reachable([s_ for l_, s_ in t.succ if l_ not in (lab, 'exc')], avoid=lambda x, cn=cn: x is cn, follow_exc=False)]
+                k += 1
+                run.ob('R06.6', u, c, 'the literal parser is consulted for every host', not gd, slot='classifier-unconditional',
+                       message='_create_ip_address asks ipaddress.ip_address only when %s: hosts failing that test are filed as names without being parsed '
+                               '(e.g. the IPv6 literal 2001:db8::a)' % ' / '.join(src(t.ast)[:40] for t, _ in gd))
     fam_cls = {'v4': 'IPv4Address', 'v6': 'IPv6Address'}
     for c in calls_in(u):
         o = origin(mod, c.func)
@@ -603,6 +616,29 @@ def r06_8(run):
     run.ob('R06.8', MOD, None, 'length refusals examined (%d)' % k, True)
 
 
+def r06_9(run):
+    """the right command code: the request type the caller asked for is the one sent.  _SocksMachine keeps it in one attribute,
+    written once, in the constructor, with the constructor's argument; the dispatch table (R06.3) turns it into the command byte.
+    Any other store (re-deriving the type from the kind of target) sends a different command than requested"""
+    m = machine(run)
+    k = 0
+    for u in m.methods.values():
+        for n in walk_unit(u):
+            if isinstance(n, (ast.Assign, ast.AugAssign)):
+                for t in (n.targets if isinstance(n, ast.Assign) else [n.target]):
+                    if dotted(t) == 'self._req_type':
+                        k += 1
+                        ok = u.name == '__init__' and isinstance(n, ast.Assign) and isinstance(n.value, ast.Name) and n.value.id in u.params
+                        if ok:
+                            # every construction that succeeds has passed the store
+                            g = cfg_of(u)
+                            ok = all(all(g.dominates(cn, e) for e in g.normal_exits()) for cn in g.nodes_containing(n))
+                        run.ob('R06.9', u, n, 'the request type is the constructor argument, stored once and unconditionally', ok, slot='req-type-store@%s' % u.name,
+                               message='%s sets self._req_type = %s%s: the command byte sent is no longer the request type the caller asked for' %
+                                       (u.name, src(n.value)[:40], '' if u.name == '__init__' else ' outside the constructor'))
+    run.floor('R06.9', 'stores of the request type', k, 1)
+
+
 RULES = [
     ('R06.1', 'constant folding: method selection = 05 01 00, sent on (unconnected, connection)', r06_1),
     ('R06.2', 'struct format x header x address agreement with RFC 1928 for every request type and address family (path enumeration over the family atom)', r06_2),
@@ -611,6 +647,7 @@ RULES = [
     ('R06.6', 'classifier fidelity: family chosen by ipaddress.ip_address(host) alone, host/port carried unchanged', r06_6),
     ('R06.7', 're-entrancy of the output drain: no wholesale reset of the queue after the callback', r06_7),
     ('R06.8', 'who-may-refuse: no length test refuses a hostname of 255 octets or fewer', r06_8),
+    ('R06.9', 'who-may-write the request type: stored once, in the constructor, from its argument, unconditionally', r06_9),
     ('R06.4', 'sibling agreement: every packed hostname comes from a strict ASCII encoding and a one-byte length', r06_4),
 ]
 
